@@ -3,6 +3,7 @@ package main
 // net/http, net/url (UF level), gorilla-style schema codec, securecookie, oauth2 models.
 
 import (
+	"strings"
 	"go/types"
 
 	"golang.org/x/tools/go/ssa"
@@ -82,9 +83,20 @@ func init() {
 		bad := false
 		if meta != nil {
 			if src, ok := meta.Attrs["form"].(*MapV); ok && src != nil {
+				method, _ := sv.Fields[fieldIndex(t, "Method")].(*Term)
+				bodyless := method != nil && method.IsLit() && (method.S == "GET" || method.S == "HEAD")
 				for _, e := range src.Entries {
-					form.Entries = append(form.Entries, MapEntry{K: e.K, V: ex.deepCopy(e.V, map[*Object]*Object{})})
-					post.Entries = append(post.Entries, MapEntry{K: e.K, V: ex.deepCopy(e.V, map[*Object]*Object{})})
+					k := e.K
+					inQuery := bodyless
+					if kt, ok := k.(*Term); ok && kt.IsLit() && strings.HasPrefix(kt.S, "?") {
+						// convention of verifnd.Request: a key written "?name" travels in the URL query
+						k = StrLit(kt.S[1:])
+						inQuery = true
+					}
+					form.Entries = append(form.Entries, MapEntry{K: k, V: ex.deepCopy(e.V, map[*Object]*Object{})})
+					if !inQuery {
+						post.Entries = append(post.Entries, MapEntry{K: k, V: ex.deepCopy(e.V, map[*Object]*Object{})})
+					}
 				}
 			}
 			bad = ex.Branch(meta.Attrs["badForm"].(*Term))
